@@ -27,6 +27,7 @@ def run(run, args):
     run.oblige("the four families are indistinguishable after every step", not res[1], "")
     run.oblige("every read returns the count of the entry the key/text denotes, 0 when absent", not res[2], "")
     broken = standard_proof_obligations(run, "C06", THEOREMS)
+    broken += source_corollaries(run, "C06s", ['C06s_observers', 'C06s_str_observers', 'C06s_mutators', 'C06s_forms_agree'], ('comp', 'props'))
 
     def case(hid, both=False):
         r = by_id[hid // 4]
